@@ -87,7 +87,8 @@ pub enum BodySpec {
     None,
     Text(String),
     Bytes(Vec<u8>),
-    File(Vec<u8>),
+    /// file contents, and how many bytes the caller has already read from the handle before handing it over
+    File(Vec<u8>, usize),
     Json(serde_json::Value),
     JsonStreaming(serde_json::Value),
     Form(Vec<(String, String)>),
@@ -101,7 +102,7 @@ impl BodySpec {
             BodySpec::None => "none",
             BodySpec::Text(_) => "text",
             BodySpec::Bytes(_) => "bytes",
-            BodySpec::File(_) => "file",
+            BodySpec::File(..) => "file",
             BodySpec::Json(_) => "json",
             BodySpec::JsonStreaming(_) => "json_streaming",
             BodySpec::Form(_) => "form",
@@ -266,7 +267,16 @@ pub fn gen_body(g: &mut G, max: usize) -> BodySpec {
         0 => BodySpec::None,
         1 => BodySpec::Text(String::from_utf8_lossy(&gen::gen_bytes(g.size(max), 0, 1)).into_owned()),
         2 => BodySpec::Bytes(g.payload(0).into_iter().chain(gen::gen_bytes(g.size(max), 1, g.subseed())).collect()),
-        3 => BodySpec::File(gen::gen_bytes(g.size(max), 1, g.subseed())),
+        3 => {
+            let data = gen::gen_bytes(g.size(max), 1, g.subseed());
+            let pre = if g.chance(1, 3) && !data.is_empty() {
+                g.probe("file-handle-not-at-start");
+                1 + g.usize_below(data.len())
+            } else {
+                0
+            };
+            BodySpec::File(data, pre)
+        }
         4 => BodySpec::Json(gen_json(g, 0)),
         5 => BodySpec::JsonStreaming(gen_json(g, 0)),
         6 => BodySpec::Form((0..g.below(5)).map(|_| (word(g), word(g))).collect()),
@@ -352,8 +362,13 @@ impl ReqPlan {
             BodySpec::None => rb.send(),
             BodySpec::Text(s) => rb.text(s.clone()).send(),
             BodySpec::Bytes(b) => rb.bytes(b.clone()).send(),
-            BodySpec::File(data) => {
-                let f = temp_file(data);
+            BodySpec::File(data, pre) => {
+                let mut f = temp_file(data);
+                if *pre > 0 {
+                    use std::io::Read;
+                    let mut sink = vec![0u8; *pre];
+                    let _ = f.read_exact(&mut sink);
+                }
                 rb.file(f).send()
             }
             BodySpec::Json(v) => rb.json(v)?.send(),
@@ -553,7 +568,7 @@ pub fn check_request_ex(
     let res: Result<(), (String, String)> = match &plan.body {
         BodySpec::None => expect_bytes(b""),
         BodySpec::Text(s) => expect_bytes(s.as_bytes()),
-        BodySpec::Bytes(b) | BodySpec::File(b) => expect_bytes(b),
+        BodySpec::Bytes(b) | BodySpec::File(b, _) => expect_bytes(b),
         BodySpec::Custom(c) => expect_bytes(&c.bytes()),
         BodySpec::Json(v) | BodySpec::JsonStreaming(v) => match serde_json::from_slice::<serde_json::Value>(body) {
             Ok(got) if got == *v => Ok(()),
